@@ -33,7 +33,7 @@ ASSUMPTIONS = [
     "prices and demand charges are the floats of the JSON file, compared exactly",
     "vector lookups (get_tariffs / get_prices / energy_cost) restrict the start to windows around season boundaries, the new year, weekends and the interior of a season (listed per job) to keep the number of paths bounded; single lookups cover the whole calendar",
 ]
-EXPECT_GLOBAL_TAGS = ("lookup:ok", "vector:ok", "vector:wrapped_year", "iface:ok", "cost:ok")
+EXPECT_GLOBAL_TAGS = ("lookup:ok", "history:ok", "vector:ok", "vector:wrapped_year", "iface:ok", "cost:ok")
 
 
 def tariff_dir():
@@ -101,6 +101,33 @@ def h_lookup(cx, fname, jan1s):
         return
     cx.observe("dc", gdc)
     cx.check("demand_charge_of_the_applicable_schedule", eq(gdc, dc))
+
+
+def h_history(cx, fname, window):
+    """the lookup is a function of the instant alone: a second lookup on the SAME tariff object, at an independent instant of an
+    independent year type, still equals the oracle (no state carried over between calls)"""
+    env.install_calendar(cx)
+    from acnportal.signals.tariffs import TimeOfUseTariff
+
+    doc = load_doc(fname)
+    t = TimeOfUseTariff(fname)
+    dr, sr = WINDOWS[window]
+    first = env.make_datetime(cx, "first", doy_range=dr, sod_range=(12 * 3600 + 60, 13 * 3600), jan1_in=JAN1[window][:1])
+    second = env.make_datetime(cx, "second", doy_range=dr, sod_range=sr)
+    try:
+        p1 = t.get_tariff(first)
+        d1 = t.get_demand_charge(first)
+        p2 = t.get_tariff(second)
+        d2 = t.get_demand_charge(second)
+    except ValueError as e:
+        cx.check("lookup_total", False, note="raised ValueError: %s" % str(e)[:80])
+        return
+    cx.tag("history:ok")
+    c1, o1, od1 = oracle(doc, first)
+    c2, o2, od2 = oracle(doc, second)
+    cx.check("first_lookup", and_(eq(p1, o1), eq(d1, od1)))
+    cx.check("second_lookup_independent_of_first", and_(eq(p2, o2), eq(d2, od2)))
+    cx.observe("p", [p1, d1, p2, d2])
 
 
 WINDOWS = {
@@ -264,6 +291,10 @@ def jobs(tier):
     for f, w, n, mp in vec:
         js.append(Job("vector[%s,%s,n=%d,period<=%d]" % (f, w, n, mp), h_vector, dict(fname=f, window=w, n=n, max_period=mp), functions=FUNCS[:2], max_paths=60000, timeout=3000,
                       bounds=dict(file=f, start_window=w, window_doy=WINDOWS[w][0], jan1_weekday=JAN1[w], length=n, period_minutes="symbolic 1..%d" % mp), cost=200))
+    for f, w in ([("sce_tou_ev_4_march_2019", "summer_interior"), ("pge_a10_tou_aug_2019", "new_year")] if q else
+                 [(f, w) for f in FILES for w in ("summer_interior", "new_year", "season_end_sep30", "leap_day")]):
+        js.append(Job("history[%s,%s]" % (f, w), h_history, dict(fname=f, window=w), functions=FUNCS[:2], max_paths=60000, timeout=3000,
+                      bounds=dict(file=f, window=w, window_doy=WINDOWS[w][0], first_instant="year type fixed, 12:01-13:00", second_instant="any year type, any second of the days in the window"), cost=150))
     ifs = [("sce_tou_ev_8_oct_2018", "summer_interior", 2, 60), ("sce_tou_ev_4_march_2019", "new_year", 2, 5)]
     if not q:
         ifs += [(f, w, 3, p) for f in FILES for w, p in (("new_year", 60), ("summer_interior", 5))] + [("sce_tou_ev_4_march_2019", "season_end_sep30", 2, 15)]
